@@ -30,7 +30,7 @@ using namespace nano::parallel;
 
 namespace
 {
-constexpr uint64_t CAP    = 100000;     // trace records kept (an `A` line stays below ~1 MB)
+constexpr uint64_t CAP    = 30000;      // trace records kept (an `A` line stays below ~350 kB; the model check is quadratic)
 constexpr int64_t  BROKEN = 1000000000; // result code: an exception that is not a task's own (broken_promise)
 constexpr int64_t  OTHER  = 999999999;
 constexpr int      MAXT   = 64;
